@@ -68,12 +68,21 @@ def make_input(rnd):
             data.append(rnd.choice([0, 1, 1.0, True, False, 0.0, 2]))
         else:
             data.append(rnd.choice([None, 0, 1, 2, None]))
-    keymode = rnd.choice(["k", "k", "k", "neg", "const", "unorderable", "raise_one", "truthy", "typed", "typed"])
+    keymode = rnd.choice(["k", "k", "k", "neg", "const", "unorderable", "raise_one", "raise_two", "truthy", "typed", "typed"])
     return data, style, keymode
+
+
+class KeyErrA(Exception):
+    pass
+
+
+class KeyErrB(Exception):
+    pass
 
 
 def twin_factory(keymode, data, rnd):
     bad = rnd.randrange(len(data)) if data else 0
+    bad2 = rnd.randrange(len(data)) if data else 0
 
     def twin(x):
         base = x.k if isinstance(x, Elem) else x
@@ -96,6 +105,13 @@ def twin_factory(keymode, data, rnd):
             if data and x is data[bad]:
                 raise UserErr(("key", bad))
             return base
+        if keymode == "raise_two":
+            # two elements are bad in different ways: the builtins stop at the first of them (in input order)
+            if data and x is data[bad]:
+                raise KeyErrA(bad)
+            if data and x is data[bad2]:
+                raise KeyErrB(bad2)
+            return 7
         return base
 
     return twin
